@@ -332,6 +332,10 @@ class Machine:
             return UNK
         if is_nan(a) or is_nan(b):
             return isinstance(op, ast.NotEq)
+        if isinstance(op, (ast.Lt, ast.LtE, ast.Gt, ast.GtE)) and ((isinstance(a, Key) and isinstance(b, Num)) or (isinstance(b, Key) and isinstance(a, Num))):
+            r = self.key_order(a, op, b)
+            if r is not None:
+                return r
         ka, kb = self.key_of(a, b), self.key_of(b, a)
         if ka is None or kb is None:
             return UNK
@@ -345,6 +349,33 @@ class Machine:
         if isinstance(a, Pos) and isinstance(b, Pos) and a.k == b.k and a.k % 2 == 1:
             return UNK
         return r
+
+    def key_order(self, a, op, b):
+        """ordering of a bucket index against a number: an index computed from a position below `low` is negative, one computed from
+        a position at or above `high` is >= the number of bins, an in-range one lies in [0, num] (num itself by rounding)"""
+        mirror = {ast.Lt: ast.Gt, ast.LtE: ast.GtE, ast.Gt: ast.Lt, ast.GtE: ast.LtE}
+        if isinstance(b, Key):
+            a, b, op = b, a, mirror[type(op)]()
+        key, n = a, b.v
+        vals = self.selfobj.fields.get("values") if isinstance(getattr(self, "selfobj", None), Obj) else None
+        num = len(vals) if isinstance(vals, (list, tuple)) else None
+        lo, hi = self.knobs.get("range_lo"), self.knobs.get("range_hi")
+        if key.kind == "out" and isinstance(key.base, Pos) and lo is not None and num is not None:
+            above = key.base.k >= self.line.pos_of(hi).k
+            if above and n <= num:          # key >= num >= n
+                return isinstance(op, (ast.Gt, ast.GtE)) if not (isinstance(op, ast.Gt) and n == num) else UNK
+            if not above and n >= 0:        # key < 0 <= n
+                return isinstance(op, (ast.Lt, ast.LtE))
+            return UNK
+        if key.kind == "in" and num is not None:
+            if n <= 0:
+                return isinstance(op, ast.GtE) if n == 0 else isinstance(op, (ast.Gt, ast.GtE))
+            if n == num:
+                return UNK if isinstance(op, (ast.GtE, ast.Lt)) else isinstance(op, ast.LtE)    # the quotient may round up to num
+            if n > num:
+                return isinstance(op, (ast.Lt, ast.LtE))
+            return UNK
+        return None
 
     def key_of(self, v, other):
         """Comparable key of v in the context of a comparison with `other` (None -> unknown)."""
